@@ -484,8 +484,10 @@ func ParallelizedAccumulation(input ParallelizedAccumulationInput) (output Paral
 			return output, err
 		}
 	}
-	// Process results from each service accumulation
-	for service_id := range s {
+	// Process results from each service accumulation, in ascending order of service index:
+	// u = [(s, ∆(s)u) | s <− s] and t′ = [∆(s)t | s <− s] are sequences, so the order in which a
+	// Go map hands out its keys must not reach them (it differs from run to run)
+	for _, service_id := range slices.Sorted(maps.Keys(s)) {
 		singleOutput, ok := cache[service_id]
 		if !ok {
 			singleOutput, err = runSingleReplaceService(service_id, singleInput)
@@ -781,7 +783,9 @@ func SingleServiceAccumulation(input SingleServiceAccumulationInput) (output Sin
 		}
 	}
 
-	sort.Slice(iT, func(i, j int) bool {
+	// by sender; transfers of one sender stay in the order in which they were emitted (a stable
+	// sort: sort.Slice reorders equal keys once there are more than 12 elements)
+	sort.SliceStable(iT, func(i, j int) bool {
 		return iT[i].SenderID < iT[j].SenderID
 	})
 
